@@ -38,6 +38,12 @@ pub fn vcat9(a: &str, b: &str, c: &str, d: &str, e: &str, f: &str, g: &str, h: &
 pub fn vcat10(a: &str, b: &str, c: &str, d: &str, e: &str, f: &str, g: &str, h: &str, i: &str, j: &str) -> (r: String) ensures r@ == a@ + b@ + c@ + d@ + e@ + f@ + g@ + h@ + i@ + j@ { [a, b, c, d, e, f, g, h, i, j].concat() }
 #[verifier::external_body]
 pub fn vcat11(a: &str, b: &str, c: &str, d: &str, e: &str, f: &str, g: &str, h: &str, i: &str, j: &str, k: &str) -> (r: String) ensures r@ == a@ + b@ + c@ + d@ + e@ + f@ + g@ + h@ + i@ + j@ + k@ { [a, b, c, d, e, f, g, h, i, j, k].concat() }
+// ---- trusted M1b: Display for usize prints its decimal digits: a non-empty string of ASCII digits, different for different numbers
+pub open spec fn is_digits(s: Seq<char>) -> bool { s.len() > 0 && forall|i: int| 0 <= i < s.len() ==> '0' <= #[trigger] s[i] && s[i] <= '9' }
+pub broadcast axiom fn axiom_disp_usize_digits(a: &usize) ensures is_digits(#[trigger] disp_spec::<usize>(a));
+pub broadcast axiom fn axiom_disp_usize_injective(a: &usize, b: &usize)
+    ensures #![trigger disp_spec::<usize>(a), disp_spec::<usize>(b)] disp_spec::<usize>(a) == disp_spec::<usize>(b) ==> *a == *b;
+pub broadcast group group_disp_usize { axiom_disp_usize_digits, axiom_disp_usize_injective }
 pub broadcast group group_disp { axiom_string_to_string, axiom_disp_string, axiom_disp_str, axiom_disp_refstr, axiom_disp_refstring }
 } // verus!
 } // mod vfmt
